@@ -764,6 +764,7 @@ def _collect(e, c, a):
             if isinstance(v, StrBuf): v = v.s
             if isinstance(v, str): out.append(v)
             elif isinstance(v, int): out.append(chr(v))
+            elif is_sym(v): out.append(chr(e.concretize(v)))
             elif hasattr(v, 'bytes') and not any(is_sym(b) for b in v.bytes()): out.append(bytes(v.bytes()).decode())
             else: raise Unsupported('collect::<String> of %r' % (v,))
         return StrBuf(''.join(out))
